@@ -354,13 +354,8 @@ func buildExpressionEx(input map[string]interface{}, depth int) (string, bool, e
 
 				return strconv.Quote(valueType), true, nil
 			case float64:
-				if math.Abs(valueType) >= 1<<63 {
-					// too large for an integer literal, keep it a float literal
 
-					return strconv.FormatFloat(valueType, 'e', -1, 64), true, nil
-				}
-
-				return strconv.FormatFloat(valueType, 'f', -1, 64), true, nil
+				return formatNumber(valueType), true, nil
 			case bool:
 				if valueType {
 
@@ -378,6 +373,18 @@ func buildExpressionEx(input map[string]interface{}, depth int) (string, bool, e
 	}
 
 	return "", false, fmt.Errorf("boolean expression cannot be empty")
+}
+
+// formatNumber writes a JSON number as the GRL literal of the same value: an integral number as an integer literal
+// (a float literal could not be used with %, & and |, as an index, or be printed as an integer by +), anything
+// too large for an integer literal in exponent form, which the grammar reads as a float literal.
+func formatNumber(number float64) string {
+	if math.Abs(number) >= 1<<63 {
+
+		return strconv.FormatFloat(number, 'e', -1, 64)
+	}
+
+	return strconv.FormatFloat(number, 'f', -1, 64)
 }
 
 func buildCompoundOperator(o interface{}, depth int, operator string) (string, bool, error) {
@@ -452,7 +459,7 @@ func parseCallOperand(o interface{}) (string, error) {
 		return operandType, nil
 	case float64:
 
-		return fmt.Sprint(operandType), nil
+		return formatNumber(operandType), nil
 	case bool:
 		if operandType {
 
@@ -524,7 +531,7 @@ func parseOperand(o interface{}, noWrap bool, negation bool) (string, error) {
 	case string:
 		plain = operandType
 	case float64:
-		plain = fmt.Sprint(operandType)
+		plain = formatNumber(operandType)
 	case bool:
 		plain = "false"
 		if operandType {
